@@ -198,6 +198,9 @@ class ContinuousVariable(Variable):
         return self.lower_bound, self.upper_bound
 
     def correct(self, value: float | int) -> float:
+        if value != value:
+            # NaN passes through np.clip unchanged: replace it by a fresh value of the domain
+            value = self.randomize()
         return float(np.clip(value, self.lower_bound, self.upper_bound))
 
     def decode(self, value: float) -> float:
@@ -267,6 +270,9 @@ class DiscreteVariable(Variable):
 
     def correct(self, value: float | int) -> int:
         lb, ub = self.get_bounds()
+        if value != value:
+            # NaN cannot be converted to an index: replace it by a fresh value of the domain
+            value = self.randomize()
         return int(np.clip(value, lb, ub))
 
     def decode(self, value: float | int) -> Any:
